@@ -23,8 +23,13 @@ impl State {
         }
     }
 
+    /// Indentation level of a (1-indexed) indent, so that indents and dedents always balance.
+    fn level(indent: i32) -> i32 {
+        (indent - 1) / 4
+    }
+
     pub fn flush_indents(&mut self) -> Vec<Lex> {
-        let amount = ((self.cur_indent) / 4) as usize;
+        let amount = State::level(self.cur_indent) as usize;
         self.cur_indent = 1;
         vec![Lex::new(self.pos, Token::Dedent); amount]
     }
@@ -46,11 +51,15 @@ impl State {
 
         self.token_this_line = true;
         let mut res = self.newlines.pop().map_or(vec![], |nl| vec![nl]);
-        if self.line_indent >= self.cur_indent {
-            let amount = ((self.line_indent - self.cur_indent) / 4) as usize;
+        let (line_level, cur_level) = (
+            State::level(self.line_indent),
+            State::level(self.cur_indent),
+        );
+        if line_level >= cur_level {
+            let amount = (line_level - cur_level) as usize;
             res.append(&mut vec![Lex::new(self.pos, Token::Indent); amount]);
         } else {
-            let amount = ((self.cur_indent - self.line_indent) / 4) as usize;
+            let amount = (cur_level - line_level) as usize;
             res.append(&mut vec![Lex::new(self.pos, Token::Dedent); amount]);
             res.push(Lex::new(self.pos, Token::NL));
         }
